@@ -153,6 +153,15 @@ def run_row(item):
         o = observe(text, "string", comments=opts[0], validate=opts[1])
     else:
         fetcher, root = graph_fetcher(r["graph"], r["fetch"])
+        if r["text"].startswith("bom-"):
+            enc = r["text"][4:].replace("-lowzero", "")
+            body = ("\u0100 , a { left: 0 }" if r["text"].endswith("lowzero") else "a { left: 0 } \u4e00 { top: 0 }")
+            bom = {"utf-16-le": codecs.BOM_UTF16_LE, "utf-16-be": codecs.BOM_UTF16_BE, "utf-32-le": codecs.BOM_UTF32_LE,
+                   "utf-32-be": codecs.BOM_UTF32_BE, "utf-8": codecs.BOM_UTF8}[enc]
+            data = bom + body.encode(enc)
+            o = observe(data, "bytes", comments=opts[0], validate=opts[1])
+            a = dict(r, text=repr(data)[:120], comments=opts[0], validate=opts[1])
+            return {"id": rid, "item": a, "init": {"x": 0}, "steps": [{"a": a, "out": "ok", "post": o}]}
         text = TEXTS[r["text"]]
         if r["graph"] != "none":
             text = root + "\n" + text if r["text"] not in ("bom", "charset-rule", "truncated-charset") else text + '\n@import "a.css";'
